@@ -1192,3 +1192,156 @@ Proof.
   - destruct A as [A|A]; rewrite A; [apply N1|discriminate].
   - destruct P as [[P _]|[[P _]|[P _]]]; rewrite P; [apply N2|discriminate|discriminate].
 Qed.
+
+(* ---------------------------------------------------------------------- *)
+(* Part D: the Reader object across in-place operations                    *)
+(* ---------------------------------------------------------------------- *)
+Definition wgood (w : rworld) : Prop := 1 <= w_n w /\ 1 <= w_nc w /\ w_nch w = w_n w.
+
+(* open() in general: succeeds whenever the exposed count is right; warns iff
+   (on x.bin) the cached nbytes differs from the size of x.bin *)
+Lemma r_open_ok w o : wgood w -> o_ns o = w_n w ->
+  exists o', r_open w o = Some o' /\ o_ns o' = w_n w /\ o_file o' = o_file o /\
+    o_nbytes o' = o_nbytes o /\
+    o_raw o' = (match o_file o with DBin => RawMemmap | DCbin => RawMtscomp end) /\
+    (o_warn o' = true <-> (o_file o = DBin /\ o_nbytes o <> 2 * w_n w * w_nc w)).
+Proof.
+  intros [Hn [Hc Hh]] Hs. unfold r_open. destruct (o_file o) eqn:Ef.
+  - (* bin *)
+    assert (Hdiv : fsize w DBin / (2 * w_nc w) = w_n w).
+    { unfold fsize. replace (2 * w_n w * w_nc w) with (w_n w * (2 * w_nc w)) by lia.
+      apply Z.div_mul. lia. }
+    set (mism := negb (w_nc w * o_ns o * 2 =? o_nbytes o)).
+    assert (Hns : (if mism then fsize w DBin / (2 * w_nc w) else o_ns o) = w_n w).
+    { destruct mism; [exact Hdiv|exact Hs]. }
+    rewrite Hns.
+    assert (Hchk : (0 <? w_n w) && (w_n w * w_nc w * 2 <=? fsize w DBin) = true).
+    { apply andb_true_intro. split; [apply Z.ltb_lt; lia|apply Z.leb_le; unfold fsize; lia]. }
+    rewrite Hchk. eexists. split; [reflexivity|]. cbn [o_ns o_file o_nbytes o_raw o_warn].
+    repeat (split; [reflexivity|]). unfold mism. rewrite Hs. split.
+    + intros H. split; [reflexivity|]. apply negb_true_iff, Z.eqb_neq in H.
+      intros E. apply H. rewrite E. ring.
+    + intros [_ H]. apply negb_true_iff, Z.eqb_neq. intros E. apply H. rewrite <- E. ring.
+  - (* cbin *)
+    rewrite Hh, Hs, Z.eqb_refl. eexists. split; [reflexivity|]. cbn [o_ns o_file o_nbytes o_raw o_warn].
+    split; [reflexivity|split; [reflexivity|split; [reflexivity|split; [reflexivity|]]]].
+    split; [discriminate|intros [H _]; discriminate H].
+Qed.
+
+(* the invariant of the current code: right sample count; whenever the object
+   is on x.bin its cached nbytes is the size of x.bin; never a closed reader in
+   _raw; no size-mismatch warning *)
+Definition RInv (w : rworld) (s : rstate) : Prop :=
+  let o := s_obj s in
+  o_ns o = w_n w /\
+  (o_file o = DBin -> o_nbytes o = fsize w DBin) /\
+  o_raw o <> RawClosed /\
+  o_warn o = false.
+
+Lemma r_open_inv w o : wgood w ->
+  o_ns o = w_n w -> (o_file o = DBin -> o_nbytes o = fsize w DBin) -> o_warn o = false ->
+  exists o', r_open w o = Some o' /\ o_ns o' = w_n w /\ o_file o' = o_file o /\
+    o_nbytes o' = o_nbytes o /\
+    o_raw o' = (match o_file o with DBin => RawMemmap | DCbin => RawMtscomp end) /\
+    o_warn o' = false.
+Proof.
+  intros Hw Hs Hb Hwn.
+  destruct (r_open_ok w o Hw Hs) as [o' [E [H1 [H2 [H3 [H4 H5]]]]]].
+  exists o'. repeat (split; [assumption|]).
+  destruct (o_warn o') eqn:Ew; [|reflexivity].
+  destruct H5 as [H5 _]. destruct (H5 eq_refl) as [Hf Hne].
+  exfalso. apply Hne. rewrite (Hb Hf). reflexivity.
+Qed.
+
+Lemma r_step_inv w s op : wgood w -> RInv w s -> RInv w (fst (r_step w s op)).
+Proof.
+  intros Hw [Hs [Hb [Hr Hwn]]]. unfold RInv.
+  destruct op as [|keep|keep|]; cbn [r_step].
+  - destruct (r_open_inv w (s_obj s) Hw Hs Hb Hwn) as [o' [E [H1 [H2 [H3 [H4 H5]]]]]].
+    rewrite E. cbn [fst s_obj]. split; [exact H1|split; [|split; [|exact H5]]].
+    + intros Hf. rewrite H3. apply Hb. rewrite <- H2. exact Hf.
+    + rewrite H4. destruct (o_file (s_obj s)); discriminate.
+  - assert (HI : RInv w s) by (repeat split; assumption). unfold RInv in HI.
+    destruct (o_file (s_obj s)) eqn:Ef; [destruct keep|]; cbn [fst s_obj o_ns o_file o_nbytes o_raw o_warn];
+      try exact HI.
+    split; [exact Hs|split; [discriminate|split; [exact Hr|exact Hwn]]].
+  - assert (HI : RInv w s) by (repeat split; assumption). unfold RInv in HI.
+    destruct (o_file (s_obj s)) eqn:Ef; [|destruct keep]; cbn [fst s_obj];
+      try exact HI.
+    unfold r_decompress_inplace.
+    set (o1 := mkR DBin (fsize w DBin) (o_ns (s_obj s)) RawNone (o_warn (s_obj s))).
+    assert (I1 : o_ns o1 = w_n w /\ (o_file o1 = DBin -> o_nbytes o1 = fsize w DBin) /\
+                 o_raw o1 <> RawClosed /\ o_warn o1 = false).
+    { unfold o1; cbn. split; [exact Hs|split; [reflexivity|split; [discriminate|exact Hwn]]]. }
+    destruct (r_open_inv w o1 Hw (proj1 I1) (proj1 (proj2 I1)) (proj2 (proj2 (proj2 I1))))
+      as [o2 [E [H1 [H2 [H3 [H4 H5]]]]]].
+    destruct (o_raw (s_obj s)); cbn [fst]; try exact I1; rewrite E; cbn [fst];
+      (split; [exact H1|split; [intros _; rewrite H3; reflexivity|split; [rewrite H4; discriminate|exact H5]]]).
+  - assert (HI : RInv w s) by (repeat split; assumption). unfold RInv in HI.
+    destruct (o_file (s_obj s)); cbn [fst]; exact HI.
+Qed.
+
+Lemma r_start_inv w f : RInv w (r_start w f (w_n w)).
+Proof.
+  unfold RInv, r_start, r_init. cbn.
+  split; [reflexivity|split; [intros ->; reflexivity|split; [discriminate|reflexivity]]].
+Qed.
+
+Lemma r_run_inv w ops : forall s, wgood w -> RInv w s ->
+  Forall (fun x => RInv w (fst x)) (r_run w s ops).
+Proof.
+  induction ops as [|op ops IH]; intros s Hw Hi; cbn; constructor.
+  - apply r_step_inv; assumption.
+  - apply IH; [assumption|apply r_step_inv; assumption].
+Qed.
+
+(* under the invariant no call raises except the is_mtscomp guards, and after
+   open() / in-place decompression of an open object the raw reader is the one
+   of the current file *)
+Lemma r_step_noraise w s op : wgood w -> RInv w s ->
+  snd (r_step w s op) = true ->
+  (exists k, op = RCompress k /\ o_file (s_obj s) = DCbin) \/
+  (exists k, op = RDecompress k /\ o_file (s_obj s) = DBin) \/
+  (op = RScratch /\ o_file (s_obj s) = DBin).
+Proof.
+  intros Hw [Hs [Hb [Hr Hwn]]]. destruct op as [|keep|keep|]; cbn [r_step].
+  - destruct (r_open_inv w (s_obj s) Hw Hs Hb Hwn) as [o' [E _]]. rewrite E. discriminate.
+  - destruct (o_file (s_obj s)); [discriminate|]. intros _. left. eauto.
+  - destruct (o_file (s_obj s)) eqn:Ef; [intros _; right; left; eauto|].
+    destruct keep; [discriminate|]. unfold r_decompress_inplace.
+    set (o1 := mkR DBin (fsize w DBin) (o_ns (s_obj s)) RawNone (o_warn (s_obj s))).
+    destruct (r_open_inv w o1 Hw Hs (fun _ => eq_refl) Hwn) as [o2 [E _]].
+    destruct (o_raw (s_obj s)); cbn [snd]; try discriminate; rewrite E; discriminate.
+  - destruct (o_file (s_obj s)); [intros _; right; right; auto|discriminate].
+Qed.
+
+Lemma r_reopened w s : wgood w -> RInv w s ->
+  o_raw (s_obj (fst (r_step w s ROpen))) =
+    (match o_file (s_obj s) with DBin => RawMemmap | DCbin => RawMtscomp end) /\
+  (o_file (s_obj s) = DCbin -> o_raw (s_obj s) <> RawNone ->
+     let o' := s_obj (fst (r_step w s (RDecompress false))) in
+     o_file o' = DBin /\ o_raw o' = RawMemmap /\ o_nbytes o' = fsize w DBin).
+Proof.
+  intros Hw [Hs [Hb [Hr Hwn]]]. split.
+  - cbn [r_step]. destruct (r_open_inv w (s_obj s) Hw Hs Hb Hwn) as [o' [E [_ [_ [_ [H _]]]]]].
+    rewrite E. exact H.
+  - intros Hf Hopen. cbn [r_step]. rewrite Hf. unfold r_decompress_inplace.
+    set (o1 := mkR DBin (fsize w DBin) (o_ns (s_obj s)) RawNone (o_warn (s_obj s))).
+    destruct (r_open_inv w o1 Hw Hs (fun _ => eq_refl) Hwn) as [o2 [E [_ [H2 [H3 [H4 _]]]]]].
+    destruct (o_raw (s_obj s)); try contradiction; cbn [fst s_obj]; rewrite E; cbn [fst];
+      (split; [exact H2|split; [exact H4|exact H3]]).
+Qed.
+
+(* witnesses: a 11 x 3 recording (66 bytes) whose x.cbin has 93 bytes *)
+Definition w_ex : rworld := mkW 11 3 93 11.
+
+(* what is still not refreshed: compress_file(keep_original=False) keeps the
+   size of x.bin in nbytes while the object points at x.cbin.  Nothing reads
+   nbytes in that state (the cbin branch of open() does not use it) and the
+   next in-place decompression refreshes it. *)
+Lemma stale_nbytes_on_cbin_witness :
+  let tr := r_run w_ex (r_start w_ex DBin 11) [ROpen; RCompress false; ROpen] in
+  let o := s_obj (fst (last tr (r_start w_ex DBin 11, false))) in
+  o_file o = DCbin /\ o_nbytes o = 66 /\ fsize w_ex DCbin = 93 /\ o_warn o = false /\ o_ns o = 11 /\
+  o_raw o = RawMtscomp.
+Proof. vm_compute. auto 7. Qed.
